@@ -11,7 +11,7 @@ from fractions import Fraction
 
 from ..core import EventLog, RunResult, SimAbort, h64
 from ..render import render, random_layout, PLAIN
-from ..seams import ExecMonitor, Hygiene, exc_chain
+from ..seams import ExecMonitor, Hygiene, exc_chain, run_in_thread
 
 ENGINE = "evalsim"
 SLOTS = ("A", "B", "L", "N", "NN")
@@ -85,7 +85,7 @@ def filter_refs(node, keep):
             if o not in present:
                 plan.append(o)
     node["plan"] = plan
-    if not any(True for _ in iter_refs(new_args)) and node["cls"] in ("ProbeOp", "ProbeOpU"):
+    if not any(True for _ in iter_refs(new_args)) and node["cls"] in ("ProbeOp", "ProbeOpU", "ProbeOpNoOut"):
         pass  # an operator without references is still a valid (source-like) command
     return node
 
@@ -103,11 +103,30 @@ def normalize(sc):
         sc["ops"] = [["RUN"]]
     sc["faults"] = [f for f in sc.get("faults", []) if f["cmd"] in names]
     sc["src_count"] = min(sc.get("src_count", len(sc["nodes"])), len(sc["nodes"]))
+    consumed = {r for n in sc["nodes"] if not n.get("ext") for r in iter_refs(n["args"])}
+    for n in sc["nodes"]:
+        if n.get("ext") and (n["cls"] not in ("ProbeSrc", "ProbeSrcNoOut", "ProbeSrcNone") or n["name"] not in consumed):
+            n.pop("ext")          # only a stand-alone input that some command of the program references
+            n.pop("rname", None)
+        if n.get("ext"):
+            n.pop("meta", None)
+    if any(n.get("ext") for n in sc["nodes"]) or any(not _identifier(n["name"]) for n in sc["nodes"]):
+        sc["src_count"] = 0       # object references and free-form result names exist in the API only
+        sc["template_twice"] = False
     if sc.get("late"):
         sc["late"] = [x for x in sc["late"] if x in names]
         if not sc["late"] or len(sc["late"]) == len(sc["nodes"]):
             sc.pop("late")
     return sc
+
+
+def _key_of(inst):
+    k = getattr(inst, "sim_key", None)
+    return k if k is not None else getattr(inst, "result_name", "?")
+
+
+def _identifier(name):
+    return bool(name) and name.isascii() and name.replace("_", "a").isalnum() and not name[0].isdigit()
 
 
 def deps_of(sc):
@@ -262,6 +281,11 @@ def _plan(rng, nrefs):
     return plan
 
 
+def _op_cls(rng):
+    r = rng.random()
+    return "ProbeOp" if r < 0.6 else ("ProbeOpU" if r < 0.85 else "ProbeOpNoOut")
+
+
 def _gen_nodes(rng, family, n):
     refs = _gen_dag(rng, family, n)
     names = ["R%d" % i for i in range(n)]
@@ -280,7 +304,7 @@ def _gen_nodes(rng, family, n):
             cls = "ProbeSrc" if rng.random() < 0.85 else "ProbeSrcNoOut"
             node = {"name": names[i], "cls": cls, "args": {}, "plan": []}
         else:
-            cls = "ProbeOp" if rng.random() < 0.7 else "ProbeOpU"
+            cls = _op_cls(rng)
             args = _place(rng, [names[j] for j in refs[i]], family)
             node = {"name": names[i], "cls": cls, "args": args, "plan": []}
             nrefs = sum(1 for _ in iter_refs(args))
@@ -368,6 +392,9 @@ def generate(prop, rng, index, tier):
         "knobs": {"reclimit": rng.choice([1000, 3000, 10000])},
     }
     sc["layout"]["eol"] = "\n"  # line endings are C11's business
+    sc["knobs"]["thread"] = rng.random() < 0.15      # the client drives the program from a thread of its own
+    if route == "api" and rng.random() < 0.6:
+        _api_only(rng, sc)
     if sc["config"] == "faults":
         opsn = [nd for nd in nodes]
         for _ in range(rng.choice([1, 1, 2])):
@@ -380,6 +407,45 @@ def generate(prop, rng, index, tier):
         # make sure something happens after the fault has been consumed
         sc["ops"] = [["RUN"]] + sc["ops"] + [["RUN"], ["RUN"]]
     return normalize(sc)
+
+
+ODD_SUFFIX = (" ", "\t", "\n", "\u00a0", ".", "-1")
+
+
+def _rename(sc, old, new):
+    def sub(v):
+        if isinstance(v, list):
+            return [sub(x) for x in v]
+        return new if v == old else v
+    for nd in sc["nodes"]:
+        if nd["name"] == old:
+            nd["name"] = new
+        nd["args"] = {k: sub(v) for k, v in nd["args"].items()}
+    for op in sc["ops"]:
+        if len(op) > 1 and op[1] == old:
+            op[1] = new
+
+
+def _api_only(rng, sc):
+    """What only a program built through the API can contain: free-form result names, and references given as command
+    objects that are not commands of the program (stand-alone inputs), possibly under a name the program also uses."""
+    nodes = sc["nodes"]
+    names = [nd["name"] for nd in nodes]
+    if rng.random() < 0.5 and len(nodes) >= 2:
+        a, b = rng.sample(range(len(nodes)), 2)
+        base = names[a]
+        new = rng.choice([base + rng.choice(ODD_SUFFIX), " " + base, base + "  ", "", "R 1", "1", "a=b", "R\u00e9"])
+        if new not in names:
+            _rename(sc, names[b], new)
+    if rng.random() < 0.6:
+        names = [nd["name"] for nd in nodes]
+        consumed = {r for nd in nodes for r in iter_refs(nd["args"])}
+        srcs = [nd for nd in nodes if nd["cls"] in ("ProbeSrc", "ProbeSrcNoOut", "ProbeSrcNone") and nd["name"] in consumed]
+        rng.shuffle(srcs)
+        for nd in srcs[:rng.choice([1, 1, 2])]:
+            nd["ext"] = True
+            others = [x for x in names if x != nd["name"] and not any(m.get("ext") and m["name"] == x for m in nodes)]
+            nd["rname"] = rng.choice(others) if others and rng.random() < 0.6 else nd["name"]
 
 
 def _generate_cyclic_eems(rng, index, tier):
@@ -549,7 +615,7 @@ def _generate_cyclic(rng, index, tier):
         fam = rng.choice(["random", "listonly", "random", "chain"])
         if refs[i]:
             args = _place(rng, [names[j] for j in refs[i]], fam)
-            nd = {"name": names[i], "cls": "ProbeOp" if rng.random() < 0.7 else "ProbeOpU",
+            nd = {"name": names[i], "cls": _op_cls(rng),
                   "args": args, "plan": _plan(rng, sum(1 for _ in iter_refs(args)))}
         else:
             nd = {"name": names[i], "cls": "ProbeSrc", "args": {}, "plan": []}
@@ -564,7 +630,7 @@ def _generate_cyclic(rng, index, tier):
         "api_objects": False,
         "layout": random_layout(rng, wild=rng.random() < 0.3),
         "ops": [["RUN"]] if rng.random() < 0.7 else [["RUN"], ["RUN"]], "faults": [],
-        "knobs": {"reclimit": rng.choice([400, 1000, 3000])},
+        "knobs": {"reclimit": rng.choice([400, 1000, 3000]), "thread": rng.random() < 0.2},
     }
     sc["layout"]["eol"] = "\n"
     sc = normalize(sc)
@@ -733,12 +799,18 @@ class _Ctx(object):
         self.exact = {n["name"] for n in sc["nodes"] if n.get("exact")}
         self.none_result = {n["name"] for n in sc["nodes"] if n["cls"] in ("ProbeSrcNone", "ProbeOpNone")}
         self.program = None
+        self.ext = {}
         self.expect_args = {n["name"]: n["args"] for n in sc["nodes"]}
         self.faults = [dict(f) for f in sc.get("faults", [])]
         self.serial = 0
         self.monitor = None
         self.pulled_tokens = {}   # dep name -> token id first seen
         self.judge = sc["config"] != "cyclic"
+
+    def cmd_of(self, key):
+        if key in self.ext:
+            return self.ext[key]
+        return self.program.commands.get(key) if self.program is not None else None
 
     def next_serial(self):
         self.serial += 1
@@ -753,12 +825,13 @@ class _Ctx(object):
         return plan
 
     def received(self, inst, shape):
-        want = self.expect_args.get(inst.result_name)
-        self.log.emit("args", cmd=inst.result_name, shape=shape)
+        key = _key_of(inst)
+        want = self.expect_args.get(key)
+        self.log.emit("args", cmd=key, shape=shape)
         if self.judge and want is not None and shape != want:
             self.res.violate("C01.I2", "C01.I2 wrong-references",
                              "command %s received references %r, the model says %r"
-                             % (inst.result_name, shape, want))
+                             % (key, shape, want))
 
     def fault_point(self, name, step):
         for f in self.faults:
@@ -770,7 +843,7 @@ class _Ctx(object):
 
     def pulled(self, consumer, dep, tok, finished_before):
         mon = self.monitor
-        dname = getattr(dep, "result_name", "?")
+        dname = _key_of(dep)
         tid = self.log.token(tok)
         after = bool(getattr(dep, "is_finished", False))
         self.log.emit("pull", consumer=consumer.result_name, dep=dname, tok=tid,
@@ -790,7 +863,7 @@ class _Ctx(object):
         elif owner != dname:
             self.res.violate("C01.I2", "C01.I2 foreign-or-missing-result",
                              "%s pulled %s and got %r" % (consumer.result_name, dname, tok))
-        if self.program is not None and self.program.commands.get(dname) is not dep:
+        if self.program is not None and self.cmd_of(dname) is not dep:
             self.res.violate("C01.I2", "C01.I2 command-of-another-program",
                              "%s was handed a command object %s that is not the one of its own program"
                              % (consumer.result_name, dname))
@@ -833,11 +906,20 @@ def _build(sc, Program, probe):
         program = Program(libraries=LIBS)
     template = sc.get("template_twice") and k == 0 and not sc.get("api_objects")
     first = Program(libraries=LIBS) if template else None
+    ext = {}
     for n in nodes[k:]:
+        if n.get("ext"):
+            # a stand-alone input: a command object of its own, not registered in the program, referenced by object
+            obj = getattr(probe, n["cls"])(n.get("rname", n["name"]), [], program=program)
+            obj.sim_key = n["name"]
+            ext[n["name"]] = obj
+    for n in nodes[k:]:
+        if n.get("ext"):
+            continue
         args = {}
         for s in SLOTS:
             if s in n["args"]:
-                args[s] = _api_value(n["args"][s], program, sc.get("api_objects"))
+                args[s] = _api_value(n["args"][s], program, sc.get("api_objects"), ext)
         if n.get("meta"):
             args["Metadata"] = dict(n["meta"])
         if first is not None:
@@ -854,6 +936,7 @@ def _build(sc, Program, probe):
             pass
         finally:
             mpsim_probe.SIM = saved
+    program._mpsim_ext = ext
     return program, text
 
 
@@ -881,9 +964,11 @@ class _Quiet(object):
         pass
 
 
-def _api_value(v, program, objects):
+def _api_value(v, program, objects, ext=None):
     if isinstance(v, list):
-        return [_api_value(x, program, objects) for x in v]
+        return [_api_value(x, program, objects, ext) for x in v]
+    if ext and v in ext:
+        return ext[v]
     if objects and v in program.commands:
         return program.commands[v]
     return v
@@ -914,9 +999,15 @@ def execute(sc):
     enter_cap = 4 * n + 8
     total_enters = [0]
     reentered = set()
+    op_entered = set()
 
     def on_enter(inst, key):
         total_enters[0] += 1
+        if faulty and key in op_entered and key not in reentered:
+            reentered.add(key)
+            res.violate("C01.I1", "C01.I1 entered-twice-in-one-operation",
+                        "%s entered a second time within one run()/result read (its first attempt had failed)" % key)
+        op_entered.add(key)
         fin = sorted(pos[k] for k, c in ctx.monitor.instances.items()
                      if getattr(c, "is_finished", False) and k in pos)
         res.state_keys.add(h64([gkey, fin, [pos.get(k, -1) for k in ctx.monitor.stack]]))
@@ -940,9 +1031,12 @@ def execute(sc):
             res.violate("C01.I1", "C01.I1 executed-more-than-once",
                         "%s entered %d times" % (key, ctx.monitor.counts[key]))
 
-    mon = ExecMonitor(log, on_enter=on_enter)
+    mon = ExecMonitor(log, on_enter=on_enter, name_of=_key_of)
     ctx.monitor = mon
     probe.SIM = ctx
+    threaded = bool(sc.get("knobs", {}).get("thread"))
+    if threaded:
+        res.probe("operations issued from a thread other than the main thread")
     program = None
     if sc.get("template_twice"):
         res.probe("the same argument objects were used for an earlier program (API template)")
@@ -952,6 +1046,13 @@ def execute(sc):
                 log.emit("op-begin", op="BUILD")
                 program, text = _build(sc, Program, probe)
                 ctx.program = program
+                ctx.ext = program._mpsim_ext
+                if ctx.ext:
+                    res.probe("stand-alone command object referenced by object")
+                    if any(o.result_name != k for k, o in ctx.ext.items()):
+                        res.probe("stand-alone command object shares its result name with a command of the program")
+                if any(not _identifier(nd["name"]) for nd in sc["nodes"]):
+                    res.probe("free-form result name (API)")
                 log.emit("op-end", op="BUILD", ok=True)
             except SimAbort:
                 raise
@@ -961,7 +1062,7 @@ def execute(sc):
                             "building a valid program failed: %r" % (exc,))
                 return _finish(sc, res, mon, pos, gkey)
             mon.install([getattr(probe, c) for c in ("ProbeSrc", "ProbeSrcNoOut", "ProbeOp", "ProbeOpU", "ProbeSrcNone",
-                                                     "ProbeOpNone")])
+                                                     "ProbeOpNone", "ProbeOpNoOut")])
             if sc.get("late"):
                 # first the acyclic part runs (not judged here), then the cycle is added to the same program
                 try:
@@ -985,14 +1086,18 @@ def execute(sc):
             gets = {}
             for op in sc["ops"]:
                 before = total_enters[0]
+                op_entered.clear()
                 log.emit("op-begin", op=op)
                 outcome = "ok"
                 exc_obj = None
+
+                def call(f):
+                    return run_in_thread(f, sc.get("knobs", {}).get("reclimit") or 1000) if threaded else f()
                 try:
                     if op[0] == "RUN":
-                        program.run()
+                        call(program.run)
                     elif op[0] == "GET":
-                        tok = program.commands[op[1]].result
+                        tok = call(lambda: ctx.cmd_of(op[1]).result)
                         tid = log.token(tok)
                         log.emit("get", cmd=op[1], tok=tid)
                         if not cyclic:
@@ -1007,9 +1112,9 @@ def execute(sc):
                                 res.violate("C01.I3", "C01.I3 result-identity",
                                             "reading %s returned a different object than before" % op[1])
                     elif op[0] == "CRUN":
-                        program.commands[op[1]].run()
+                        call(ctx.cmd_of(op[1]).run)
                     elif op[0] == "META":
-                        md = program.commands[op[1]].metadata
+                        md = ctx.cmd_of(op[1]).metadata
                         want = next((nd.get("meta") or {} for nd in sc["nodes"] if nd["name"] == op[1]), {})
                         if not cyclic and dict(md) != dict(want):
                             res.violate("C01.meta", "C01.meta mismatch", "metadata of %s is %r" % (op[1], md))
@@ -1021,7 +1126,7 @@ def execute(sc):
                 added = total_enters[0] - before
                 log.emit("op-end", op=op, outcome=outcome, exc=type(exc_obj).__name__ if exc_obj else None,
                          added=added)
-                fin = sorted(pos[k] for k in pos if getattr(program.commands.get(k), "is_finished", False))
+                fin = sorted(pos[k] for k in pos if getattr(ctx.cmd_of(k), "is_finished", False))
                 res.state_keys.add(h64([gkey, fin, op[0]]))
                 if cyclic:
                     _judge_cyclic(sc, res, mon, outcome, exc_obj, RecursiveModelStructure)
@@ -1057,17 +1162,22 @@ def execute(sc):
                     if not complete:
                         res.probe("partial pull-evaluation before the first complete RUN")
                 if op[0] == "RUN":
+                    # every command of the program, and every stand-alone input one of them reads
+                    due = set()
+                    for x in pos:
+                        if x not in ctx.ext:
+                            due |= closure(deps, x)
                     if faulty:
-                        bad = sorted(x for x in pos if mon.returned.get(x, 0) < 1)
+                        bad = sorted(x for x in due if mon.returned.get(x, 0) < 1)
                     else:
-                        bad = sorted(x for x in pos if mon.counts.get(x, 0) != 1)
+                        bad = sorted(x for x in due if mon.counts.get(x, 0) != 1)
                     if bad:
                         res.violate("C01.I4", "C01.I4 run-incomplete",
                                     "after run() these commands had not executed exactly once: %r "
                                     "(counts %r)" % (bad, {x: mon.counts.get(x, 0) for x in bad}))
                     if complete:
                         res.probe("run() after everything finished")
-                    complete = not bad
+                    complete = not bad and all(mon.returned.get(x, 0) >= 1 for x in pos)
                 if not complete and all(mon.returned.get(x, 0) >= 1 for x in pos):
                     complete = True
                     res.probe("program completed by result reads alone")
